@@ -19,7 +19,7 @@ LEVEL_TEXT = ('Integrator/grid invariance needs the numerical solution and is no
               'non-dimensionalise then re-dimensionalise is the identity on all five arrays and four scalars; the solution-type layout is written and read with the same index polynomial.')
 LEVEL_NOTE = ('Trusted: front-end, interpreter, the assignment of physical dimensions to inputs (radius m, density kg m-3, moduli Pa, gravity m s-2, frequency s-1, G m3 kg-1 s-2; y1,y3 s2 m-1; y2,y4 kg m-3; y5 1; y6,y7 m-1). '
               'The absolute integration tolerance `atol` is a dimensional number applied to non-dimensional and dimensional solves alike (assumption, affects accuracy only).')
-EXPLANATION = 'R03.1 non-dim o re-dim == identity and conversion factors carry the right dimension; R03.2 scaling covariance of all kernels; R03.3 solution layout agreement (writer collapse for every layer kind, readers by interpretation); R03.4 sibling unit system; R03.6 every requested type gets the Love numbers of its own assembled solution; R03.7 dimensional homogeneity of the arithmetic of the driver itself (unit inference); R03.8 the conversion helpers return the same values whichever planet was converted before (no stale module-level cache); R03.9 a type requested alone returns what it returns together with the others (5 whole-driver runs per structure); R03.10 y3 of dynamic liquid layers in the returned solution obeys the elimination formula with the dimensional frequency, non-dimensionalised or not; R03.11 no loop index narrower than its bound (finer grids); R03.5 reciprocity: W(tidal, loading) conserved in every layer kind, continuous across interfaces, and equal to (2l+1)R/(4 pi G) [k_t - h_t - k_load] at the surface.'
+EXPLANATION = 'R03.1 non-dim o re-dim == identity and conversion factors carry the right dimension; R03.2 scaling covariance of all kernels; R03.3 solution layout agreement (writer collapse for every layer kind, readers by interpretation); R03.4 sibling unit system; R03.6 every requested type gets the Love numbers of its own assembled solution; R03.7 dimensional homogeneity of the arithmetic of the driver itself (unit inference); R03.8 the conversion helpers return the same values whichever planet was converted before (no stale module-level cache); R03.9 a type requested alone returns what it returns together with the others (5 whole-driver runs per structure); R03.10 y3 of dynamic liquid layers in the returned solution obeys the elimination formula with the dimensional frequency, non-dimensionalised or not; R03.11 no loop index narrower than its bound (finer grids); R03.12 the surface condition is built with the gravity and G of the unit system of the solve; R03.5 reciprocity: W(tidal, loading) conserved in every layer kind, continuous across interfaces, and equal to (2l+1)R/(4 pi G) [k_t - h_t - k_load] at the surface.'
 
 
 def run(chk):
@@ -47,6 +47,8 @@ def run(chk):
     SW.guarded(chk, 'C03', lambda: SW.assembled(chk, repo, None, None, 'R03.6'))
     SW.guarded(chk, 'C03', lambda: SW.alone_vs_together(chk, repo, 'R03.9'))
     SW.guarded(chk, 'C03', lambda: SW.liquid_y3(chk, repo, 'R03.10'))
+    SW.guarded(chk, 'C03', lambda: SW.surface_arguments(chk, repo, 'R03.12'))
+    chk.floor('R03.12', 6)
     chk.floor('R03.9', 6); chk.floor('R03.10', 6)
     # ---- R03.11 "a finer radial grid": no loop index of the solve is narrower than the bound it runs to (a counter that wraps at 256 slices changes the answer on fine grids only)
     from .common import index_width_lint
